@@ -54,6 +54,14 @@ TIME_INPUTS = [
     ("\"2024-01-02 [/etc/passwd]\"", "\"%Y-%m-%d [%Q]\""),
     ("\"2024-01-02 CET\"", "\"%Y-%m-%d %Z\""),
     ("\"2024-01-02T03:04:05+01:00[Europe/../../etc/passwd]\"", "\"%Y-%m-%dT%H:%M:%S%:z[%Q]\""),
+    # complete instants (date AND time), so that zone resolution is really reached
+    ("\"2024-01-02 03:04:05 ../../../etc/passwd\"", "\"%Y-%m-%d %H:%M:%S %Q\""),
+    ("\"2024-01-02 03:04:05 ../../../etc/localtime\"", "\"%F %T %Q\""),
+    ("\"2024-01-02 03:04:05 /etc/localtime\"", "\"%F %T %Q\""),
+    ("\"2024-01-02 03:04:05 posix/../../../etc/localtime\"", "\"%F %T %Q\""),
+    ("\"2024-01-02 03:04:05 right/Europe/Vienna\"", "\"%F %T %Q\""),
+    ("\"2024-01-02T03:04:05[../../../etc/localtime]\"", "\"%FT%T[%Q]\""),
+    ("\"2024-01-02 03:04:05 +01:00 ../../etc/localtime\"", "\"%F %T %:z %Q\""),
     ("1700000000", "\"%Y-%m-%dT%H:%M:%S %Z %Q\""),
     ("[2024,1,2,3,4,5,0,0]", "\"%c %Z %Q %s\""),
 ]
@@ -109,6 +117,13 @@ def native_cases(fns, D, per_fn, rng, tag):
                 text = name + " \"a\\(.)b\\(.[0]?)\""
             cases.append({"kind": tag, "fn": "%s/%d" % (name, ar), "filter": text, "input": "J" + inp,
                           "inputs": ["J" + jstr(e), "J" + wrap(e, k)], "limit": 24})
+        # the date/time filters are the only ones with a documented file access (time-zone database):
+        # every time-shaped input (zone names with `..`, absolute paths, complete and partial instants)
+        if ar <= 1 and any(t in name for t in ("time", "date", "strf", "strp")):
+            for j, (ti, tf) in enumerate(TIME_INPUTS):
+                text = call_text(name, kinds, [tf] if ar else [])
+                cases.append({"kind": tag, "fn": "%s/%d" % (name, ar), "filter": text, "input": "J" + ti,
+                              "inputs": ["J" + ti, "J" + tf], "limit": 24})
     return cases
 
 
